@@ -32,13 +32,22 @@ RUNNABLE, IDLE, BLOCKED, DONE = "runnable", "idle", "blocked", "done"
 # pre-emption points of a run depend on what the process executed before.
 _UNTRACED_FUNCTIONS = frozenset(["_is_future_fast", "_isawaitable_fast"])
 
+# Functions of the traced files that read-modify-write state shared between
+# worker threads; the random-walk policy may pre-empt more often inside them.
+_HOT_FUNCTIONS = frozenset([
+    "add_error", "clear_errors", "on_finish", "cb", "fail", "complete",
+    "_next", "_collect", "_handle_non_nullable_value", "collect_fields",
+    "field_definition", "argument_values", "field_resolver",
+])
+
 
 class SimAbort(BaseException):
     """Unwinds parked threads when a run is abandoned (hang / step cap)."""
 
 
 class _T:
-    __slots__ = ("idx", "gate", "status", "prio", "thread", "wait_pred")
+    __slots__ = ("idx", "gate", "status", "prio", "thread", "wait_pred",
+                 "penalty")
 
     def __init__(self, idx):
         self.idx = idx
@@ -47,6 +56,7 @@ class _T:
         self.prio = 0
         self.thread = None
         self.wait_pred = None
+        self.penalty = 0  # scheduling decisions to sit out after a hot stop
 
 
 class L2Future(cf.Future):
@@ -88,9 +98,10 @@ class ThreadSim:
         self.fatal = None
         self.stats = {
             "preemptions": 0, "line_events": 0, "tasks": 0,
-            "blocking_waits": 0, "switches": 0,
+            "blocking_waits": 0, "switches": 0, "hot_preemptions": 0,
         }
         self._next_preempt = None
+        self._hot_den = policy.get("hot_den", 0)
         self._low = 0
         self._tls = threading.local()
         if policy["kind"] == "pct":
@@ -121,10 +132,10 @@ class ThreadSim:
 
     def _local_trace(self, frame, event, arg):
         if event == "line":
-            self.on_line()
+            self.on_line(frame.f_code.co_name in _HOT_FUNCTIONS)
         return self._local_trace
 
-    def on_line(self):
+    def on_line(self, hot=False):
         if self.abort:
             raise SimAbort()
         self.steps += 1
@@ -137,6 +148,20 @@ class ThreadSim:
         if kind == "rw":
             if self.steps >= self._next_preempt:
                 self._draw_next_preempt()
+                self._reschedule(preempt=True)
+            elif hot and self._hot_den and self.stream.chance(
+                    1, self._hot_den, "hot-preempt"):
+                # extra pre-emptions inside the functions that touch state
+                # shared between worker threads (error list, gather slots,
+                # serial-chain accumulators)
+                # The stopped thread sits out a few scheduling decisions and
+                # the others get a long uninterrupted stretch: the window in
+                # which a lost update / stale read between two statements of
+                # this function can materialise.
+                self.stats["hot_preemptions"] += 1
+                self.me().penalty = 1 + self.stream.below(4, "hot-penalty")
+                self._next_preempt = self.steps + 40 + self.stream.below(
+                    200, "hot-stretch")
                 self._reschedule(preempt=True)
         elif kind == "pct":
             if self._change_points and self.steps >= self._change_points[0]:
@@ -170,7 +195,12 @@ class ThreadSim:
         others = [t for t in cands if t is not me] if preempt else cands
         if not others:
             return me if me in cands else None
-        return others[self.stream.below(len(others), "next-thread")]
+        free = [t for t in others if t.penalty == 0]
+        for t in others:
+            if t.penalty:
+                t.penalty -= 1
+        pool = free or others
+        return pool[self.stream.below(len(pool), "next-thread")]
 
     def _reschedule(self, preempt=False):
         """Called by the running thread at a scheduling point while it is
